@@ -26,6 +26,9 @@ fn build(kind: Kind, ver: FormatVersion, rng: &mut Rng, dir: &Path) -> Option<Wo
         ("enc.txt".into(), text(700, 3), 0x02, 1),
         ("encmulti.txt".into(), text(1500, 4), 0x10, 2),
         ("rawmulti.bin".into(), rng.bytes(1300), 0, 0),
+        // a compressible, an incompressible (stored as it is) and another compressible sector in one file: every sector
+        // carries a checksum whatever form it is stored in
+        ("mixed.bin".into(), { let mut d = vec![b'A'; 512]; d.extend(rng.bytes(512)); d.extend(vec![b'B'; 300]); d }, 0x02, 0),
         // degenerate contents: their checksums and digests are those of the empty / one-byte string, not "absent"
         ("empty.flag".into(), vec![], 0, 0),
         ("one.bin".into(), vec![7], 0x02, 0),
@@ -192,6 +195,28 @@ pub fn run(ctx: &mut Ctx) {
                 }
             }
         }
+    }
+    // many different signed contents: every signature the library produces verifies (signature values with leading zero
+    // bytes, about one content in 150, included)
+    {
+        let n = if ctx.thorough { 3000 } else { 700 };
+        let mut bad = vec![];
+        for k in 0..n {
+            let total = 400usize;
+            let sig_pos = 200usize;
+            let mut bytes: Vec<u8> = (0..total).map(|i| ((i * 7 + k * 13) % 251) as u8).collect();
+            bytes[0] = (k >> 8) as u8; bytes[1] = k as u8;
+            // a signature file needs its own 72 bytes: extend the string so that it holds one
+            bytes.resize(sig_pos + WEAK_SIGNATURE_FILE_SIZE + 100, 0x5A);
+            let total = bytes.len();
+            let info = SignatureInfo::new_weak(0, total as u64, sig_pos as u64, WEAK_SIGNATURE_FILE_SIZE as u64, vec![]);
+            let Ok(sf) = generate_weak_signature(Cursor::new(&bytes[..]), &info) else { bad.push(format!("content {k}: cannot sign")); continue; };
+            bytes[sig_pos..sig_pos + WEAK_SIGNATURE_FILE_SIZE].copy_from_slice(&sf);
+            let ok = match parse_weak_signature(&bytes[sig_pos..sig_pos + WEAK_SIGNATURE_FILE_SIZE]) { Ok(sg) => { let i = SignatureInfo::new_weak(0, total as u64, sig_pos as u64, WEAK_SIGNATURE_FILE_SIZE as u64, sg.clone()); verify_weak_signature_stormlib(Cursor::new(&bytes[..]), &sg, &i).unwrap_or(false) } Err(_) => false };
+            if !ok { bad.push(format!("content {k}")); }
+        }
+        ctx.out.oracle(bad.is_empty(), "library-signature-does-not-verify", &format!("{} of {n} freshly signed contents do not verify: {:?}", bad.len(), &bad[..bad.len().min(5)]));
+        ctx.out.stat("c10.many_signatures");
     }
     // signed byte strings x bit flips, signature block at positions inside / at / across digest-unit boundaries
     let n_str = if ctx.thorough { 14 } else { 5 };
